@@ -340,3 +340,37 @@ Definition fresh (pre_closed : wid -> bool) : St :=
 (* environment steps on the idle pool (before run() is entered), then the run *)
 Definition run (c : cfg) (pre_closed : wid -> bool) (pre : list op) (inputs : list inp) (script : list op) : outcome :=
   fst (run_from c (fold_left (env_step c) pre (fresh pre_closed)) inputs script).
+
+(* ---------- several runs of one pool (C09): what happens between two runs ---------- *)
+Inductive between :=
+| BEnv (o : op)             (* the environment moves while the pool is idle (a worker is killed, ...) *)
+| BRestartAll               (* restart_workers() succeeded: every worker is a fresh incarnation under a new id *)
+| BRestartFail (k : nat).   (* restart_workers() raised at the k-th worker: the first k are fresh and, having been
+                               re-inserted, now come last in the registry's order *)
+
+Definition with_w (s : St) (g : wid -> W) : St :=
+  mkSt g (src s) (depleted s) (pending s) (retries s) (ret s) (nenq s) (ret_in s) (consumed s) (lost s).
+
+(* slots outside 0..n-1 do not exist *)
+Definition trim (c : cfg) (s : St) : St :=
+  with_w s (fun i => if (i <? n c)%nat then w s i else fresh_w).
+
+Definition between_step (c : cfg) (s : St) (b : between) : St :=
+  match b with
+  | BEnv o => env_step c s o
+  | BRestartAll => with_w s (fun _ => fresh_w)
+  | BRestartFail k => with_w s (fun i => if (i + k <? n c)%nat then w s (i + k)%nat else fresh_w)
+  end.
+
+Definition is_fin (o : outcome) : bool :=
+  match o with Return _ | ReturnUnit | ReturnNone | PoolErr _ => true | _ => false end.
+
+(* one round = what happens while idle, then run(inputs) under a script; a run which does not end
+   (Blocked: the script is exhausted; Livelock; internal error) ends the history *)
+Fixpoint rounds (c : cfg) (s : St) (rs : list (list between * list inp * list op)) : list outcome :=
+  match rs with
+  | [] => []
+  | (bs, inputs, script) :: rest =>
+      let '(o, s') := run_from c (trim c (fold_left (between_step c) bs s)) inputs script in
+      o :: (if is_fin o then rounds c s' rest else [])
+  end.
